@@ -22,19 +22,20 @@ Theorem C17_unequal_refused : forall (vs : list (list Qc)), same_len vs = false 
 Proof. exact (linearize_refuses (Q2Qc 0)). Qed.
 Print Assumptions C17_unequal_refused.
 
-(* no edges between sub-circuits: the derivative of every variable of sub-circuit b only depends on sub-circuit b's
+(* no edges between sub-circuits: at every step j the derivative of every variable of sub-circuit b only depends on sub-circuit b's
    state and parameters (X is the whole state, arbitrary in the other blocks) *)
-Theorem C17_disjoint_union : forall Cs X b i, b < length Cs ->
-  nderiv (assemble Cs) X b i = deriv (nth b Cs dC) (nth b X []) i.
+Theorem C17_disjoint_union : forall Cs j X b i, b < length Cs ->
+  nderiv (assemble Cs) j X b i = deriv (nth b Cs dC) j (nth b X []) i.
 Proof. exact disjoint_union. Qed.
 Print Assumptions C17_disjoint_union.
 
-Theorem C17_union_trajectory : forall dt Cs n X j b, length X = length Cs -> b < length Cs ->
-  nth b (nth j (ntraj dt (assemble Cs) X n) []) [] = nth j (traj dt (nth b Cs dC) (nth b X []) n) [].
+Theorem C17_union_trajectory : forall dt Cs n X j0 j b, length X = length Cs -> b < length Cs ->
+  nth b (nth j (ntraj dt (assemble Cs) X j0 n) []) [] = nth j (traj dt (nth b Cs dC) (nth b X []) j0 n) [].
 Proof. exact union_trajectory. Qed.
 Print Assumptions C17_union_trajectory.
 
-(* Full statement: for every circuit, parameter map, grid (zipped or permuted), step size and number of steps,
+(* Full statement: for every circuit (with or without extrinsic input series, which grid_search broadcasts to every
+   copy), parameter map, grid (zipped or permuted), step size and number of steps,
    the state of sub-circuit r at step j of the sweep is the state at step j of the circuit adapted with row r alone *)
 Theorem C17_full : forall C pmap vals permute dt n rows tr,
   grid_impl C pmap vals permute dt n = Some (rows, tr) ->
@@ -54,7 +55,7 @@ Print Assumptions C17_write_frame.
 (* non-vacuity: a 2 x 3 permuted grid over a node parameter and an edge weight of a two-node circuit *)
 Example C17_nonvacuous :
   let q := fun z : nat => Q2Qc (inject_Z (Z.of_nat z)) in
-  let C := {| ks := [q 1; q 2]; cs := [q 1; q 0]; x0 := [q 0; q 1]; edges := [(0, 1, q 1)] |} in
+  let C := {| ks := [q 1; q 2]; cs := [q 1; q 0]; x0 := [q 0; q 1]; edges := [(0, 1, q 1)]; uin := [[q 1; q 2; q 3]; []] |} in
   match grid_impl C [[TK 0]; [TW 0]] [[q 1; q 2]; [q 3; q 4; q 5]] true (Q2Qc (1 # 8)) 3 with
   | Some (rows, tr) => rows = [[q 1; q 3]; [q 2; q 3]; [q 1; q 4]; [q 2; q 4]; [q 1; q 5]; [q 2; q 5]] /\ length tr = 3
   | None => False
